@@ -12,7 +12,7 @@ BRANCH_NAMES = {
     'evmint': ['invalid_type', 'unsigned_ok', 'unsigned_out_of_range', 'signed_ok_nonneg', 'signed_ok_neg', 'signed_out_of_range'],
 }
 
-SOURCE_COMMITS = []   # fix: commits in /repo (unguarded by definition); no guarded hook commits
+SOURCE_COMMITS = []   # no guarded hook commits; the unguarded fix: commits are listed in known_findings.jsonl
 NOT_YET = {}
 
 PROPS = {
